@@ -66,7 +66,7 @@ def pseudo_rev(t, kf, kb, prod, major, minor, backend=None):
 
     """
     be = get_backend(backend)
-    return (
+    return prod + (
         -kb * prod
         + kf * major * minor
         + (kb * prod - kf * major * minor) * be.exp(-t * (kb + kf * major))
